@@ -113,3 +113,22 @@ func init() {
 		New:       "\tinterp.RegisterFunc0(\"to_urlpath\", func(_ *interp.Interp, c []byte) any {\n\t\treturn url.PathEscape(string(c))",
 		ExpectKey: "CastFn[[]byte]|kind"})
 }
+
+func init() {
+	AddControl(Control{ID: "c13-errzero-partial-guard", Prop: "C13", Rule: "C13.errzero", File: "pkg/interp/decode.go",
+		Old:       "\tbv, err := toBinary(c)\n\tif err != nil {\n\t\treturn err\n\t}\n\n\tformatName, err := toString(format)",
+		New:       "\tbv, err := toBinary(c)\n\tif err != nil && filename != \"\" {\n\t\treturn err\n\t}\n\n\tformatName, err := toString(format)",
+		ExpectKey: "_decode|errzero:pkg/interp.toBinary"})
+	AddControl(Control{ID: "c13-errzero-error-discarded", Prop: "C13", Rule: "C13.errzero", File: "pkg/interp/interp.go",
+		Old:       "\tbv, err := toBinary(c)\n\tif err != nil {\n\t\treturn gojq.NewIter(err)\n\t}\n\tif err := hexdump(",
+		New:       "\tbv, _ := toBinary(c)\n\tif err := hexdump(",
+		ExpectKey: "_hexdump|errzero:pkg/interp.toBinary"})
+	AddControl(Control{ID: "c13-embed-binary-unset", Prop: "C13", Rule: "C13.embed", File: "pkg/interp/binary.go",
+		Old:       "\tbbf.Binary = bb\n\n\treturn bbf",
+		New:       "\tbbf.br = bb.br\n\n\treturn bbf",
+		ExpectKey: "_open|literal:pkg/interp.openFile"})
+	AddControl(Control{ID: "c13-inv-json-indent-unclamped", Prop: "C13", Rule: "C13.inv", File: "format/json/json.go",
+		Old:       "\t\tIndent: min(max(0, opts.Indent), maxIndent),",
+		New:       "\t\tIndent: max(0, opts.Indent),",
+		ExpectKey: "internal/colorjson.Options.Indent"})
+}
